@@ -87,6 +87,20 @@ Proof.
     + cbn [fst snd]. subst x. ring.
     + apply IH.
 Qed.
+(* every derivative mode of spatial_derivatives divides d/dx_a by the spacing of axis a and the second
+   derivatives by the product of the two spacings (all linear operators on the data traced as the identity) *)
+Lemma spacing_divisors_ok (h0 h1 h2 x : K) : h0 <> 0 -> h1 <> 0 -> h2 <> 0 ->
+  gen_sd_forward h0 h1 h2 x = sd_spec h0 h1 h2 x /\ gen_sd_backward h0 h1 h2 x = sd_spec h0 h1 h2 x /\
+  gen_sd_central h0 h1 h2 x = sd_spec h0 h1 h2 x /\ gen_sd_forward_central_backward h0 h1 h2 x = sd_spec h0 h1 h2 x /\
+  gen_sd_prewitt h0 h1 h2 x = sd_spec h0 h1 h2 x /\ gen_sd_sobel h0 h1 h2 x = sd_spec h0 h1 h2 x /\
+  gen_sd_gaussian h0 h1 h2 x = sd_spec h0 h1 h2 x /\ gen_sd_bspline h0 h1 h2 x = sd_spec h0 h1 h2 x.
+Proof.
+  intros H0 H1 H2.
+  repeat split;
+    unfold gen_sd_forward, gen_sd_backward, gen_sd_central, gen_sd_forward_central_backward, gen_sd_prewitt, gen_sd_sobel,
+      gen_sd_gaussian, gen_sd_bspline, sd_spec; list_eq; field; auto.
+Qed.
+
 (* inverse_consistency_loss (traced with a stand-in grid of size (5, 7, 9), symbolic spacing and a symbolic
    cube-unit error e at every point): the reported value is the Euclidean norm of the error converted with
    the GRID's align_corners flag, for every unit *)
